@@ -30,6 +30,11 @@ CLAIMED = {
          "All move sequences up to depth 6 (quick) / 8 (thorough) over three named nodes and the five relative targets, issued through MOVE, INCMP and CATCH, plus all input histories up to depth 5 / 7 of a navigator application in long-lived and persisted operation; stack, page index, Where/Depth, cache levels and the persisted snapshot are compared with the table after every move.",
          "Trusted: the 50-line stack-machine reading of navigation.texi. Two corners are left unconstrained (position after failed '_' at entry; index after '^' at entry).",
          "DESIGN.md §4 C04"),
+ "C02": ("model_checking",
+         "exhaustive enumeration of sink contents x templates x menus x browse configurations x every output size, each walked page by page through the real engine; one relation over the whole walk",
+         "Every content of up to 5 rows over a small set of row lengths (empty rows anywhere), both sink kinds (zero-size symbol, MSINK menu), every browse configuration and every output size from 1 to the unpaginated length + 3 is walked forward to one page beyond the end and back to one page before the start; completeness and order of rows, static parts on every page, next/previous offered exactly where they lead to a page that renders, and errors past either end are checked on every walk.",
+         "Trusted: the page parser of the harness (marker characters delimit the sink region). Rows are letters only. One open known finding (follow-up page that can never fit).",
+         "DESIGN.md §4 C02"),
 }
 
 NOT_YET = {}
